@@ -36,6 +36,11 @@ CHECKS = {
   text="pagination::{serialize_page_token, deserialize_page_token, deserialize_whichpage}, ResultsPage::new and RequestContext::page_limit executed from MIR. The selector is an opaque value with a symbolic 64-bit JSON length; an incoming token has symbolic length, decodability and parse outcome. z3 proves per path: an issued token carries the version tag and the selector, is never longer than MAX_TOKEN_LENGTH, and is accepted back as the same selector (this is where an asymmetric size bound or a different base64 engine on one side shows up); issuing fails only with a 5xx when the token would not fit; an incoming token is accepted iff length <= bound, base64 decodes and JSON parses (never a panic); with page_token present the result is Next(its selector) and no other parameter reaches the result, without it First(all parameters); ResultsPage::new returns a token iff the page is non-empty, derived from the last item; page_limit = min(client limit, server max) or the default, never 0, over all 32-bit values. Wire-level witnesses (token sizes around the bound, malformed tokens, limits incl. 0/negative/non-numeric) on a loop-back server.",
   note="Trusted: serde_json round trip parse(json(v)) = Ok(v); base64 decode_E(encode_E(x)) = Ok(x) and the padded length formula (engines are distinguished by the constant read from the MIR); serde's BTreeMap deserialisation and from_map are nondeterministic contracts here. Rejection of limit=0 / negative / non-numeric is third-party (serde_urlencoded + NonZeroU32) and only exercised on the wire.",
   tech="symbolic execution of MIR + SMT (bit-vectors, uninterpreted codecs with round-trip axioms); native replay incl. loop-back server", ref="DESIGN.md §5 C14"),
+ "C15": dict(
+  text="(i) Framework facts from MIR, as in C14: an issued token is accepted back as the same selector; ResultsPage::new (pages of 0..3 items quick / 0..5 thorough, selector JSON length symbolic) returns a token iff the page is non-empty, derived from the last item, and otherwise fails loudly with a 5xx (never a silent page without token); page_limit = min(limit, max) / default, >= 1, over all 32-bit values. (ii) One inductive step from an arbitrary scan state (any collection size, position and limits as unbounded integers) discharged by z3 over the documented keyset consumer pattern: page length <= effective limit <= server max, the delivered prefix is extended contiguously (no skip, no repeat), strict progress while items remain, token iff page non-empty, termination exactly when everything was delivered. (iii) complete scans (sizes 0..12000, limits 1..beyond the maximum and absent, both orders) on a loop-back server.",
+  level="model_checking",
+  note="The scan history is covered by induction, not unrolled; the consumer's query is a trusted model (the keyset pattern of the examples); collection unchanged during the scan. Framework facts rest on the same serde/base64 axioms as C14.",
+  tech="symbolic execution of MIR for the framework contracts + SMT inductive step over a consumer model; native replay of complete scans", ref="DESIGN.md §5 C15"),
 }
 NA_DEFAULT = "check under construction in this round (see DESIGN.md §5/§7); not yet claimed"
 NA = {}
